@@ -13,8 +13,53 @@ EXTRACTED = ("ConstHash", "ConstSig")
 ALLOWED_AXIOMS = ()
 KINDS = ["Exception", "ValueError", "KeyboardInterrupt", "SystemExit", "BaseException"]
 
+# The configuration of dds under which a history is run.  The property does not mention it: whatever the configuration, the
+# very exception object must come out, nothing may be stored / committed, and the following evaluations must not notice.
+OPTS = [None, False, True]                      # dds.set_option("extra_debug", .) for the whole process (None: left at its default)
+ARGS = [None, False, True]                      # dds_extra_debug argument of dds.eval
+EXPORTS = [False, True]                         # dds_export_graph argument of dds.eval
+STAGES = [None, 3, 4]                           # dds_stages of dds.eval: all / up to eval / up to store_commit (user code runs in all)
+REPAIRS = ["new-process", "same-process"]       # the repaired code arrives in a new process / is reloaded into the running one
+DEFAULT_CFG = {"opt": None, "arg": None, "export": False, "n_stages": None, "repair": "new-process"}
 
-def plan(seed):
+
+def cfg_name(cfg):
+    return (f"set_option('extra_debug', {cfg['opt']})" if cfg["opt"] is not None else "option extra_debug at its default") + \
+           f", dds_extra_debug={cfg['arg']}, dds_export_graph={'a file' if cfg['export'] else None}, dds_stages=" + \
+           ("None" if cfg["n_stages"] is None else "/".join(hist.STAGE_NAMES[:cfg["n_stages"]])) + f", repaired pipeline in {cfg['repair']}"
+
+
+def cfg_options(cfg):
+    return {} if cfg["opt"] is None else {"extra_debug": cfg["opt"]}
+
+
+def debug_off(cfg):
+    """The debugging level is really off (documented: on by default, the argument of dds.eval can only switch it on)."""
+    return not (cfg["arg"] or (True if cfg["opt"] is None else cfg["opt"]))
+
+
+def draw_cfg(rng, has_eval, opt, args=ARGS):
+    cfg = dict(DEFAULT_CFG, opt=opt, repair=rng.choice(REPAIRS))
+    if has_eval:        # the three arguments exist on dds.eval only
+        staged = rng.random() < 0.25       # (these histories need their own run of the model)
+        cfg.update(arg=rng.choice(args), export=rng.choice(EXPORTS), n_stages=rng.choice(STAGES[1:]) if staged else None)
+    return cfg
+
+
+def draw_configs(rng, has_eval, tier):
+    """Configurations for one history: always one with the debugging level really off (the default never exercises that) and
+    one with the option left alone or switched on; beyond the quick tier four more cells of the option x argument grid."""
+    cfgs = [draw_cfg(rng, has_eval, False, [None, False]), draw_cfg(rng, has_eval, rng.choice([None, True]))]
+    if tier != "quick":
+        cfgs += [draw_cfg(rng, has_eval, rng.choice(OPTS)) for _ in range(4)]
+    out = []
+    for c in cfgs:
+        if c != DEFAULT_CFG and c not in out:
+            out.append(c)
+    return out
+
+
+def plan(seed, tier="quick"):
     rng = random.Random(seed)
     prog = P.gen_program(rng, allow_classes=(seed % 3 == 0))      # every third pipeline may contain plain classes
     call = P.root_call(prog, rng)
@@ -30,15 +75,53 @@ def plan(seed):
     if others:
         m, n = rng.choice(others)
         f = P.find_func(prog, m, n)
-        ev.append(("act", {"a": "call", "mod": m, "fn": n, "style": "direct" if f.get("annot") else "eval", "pos": [], "kw": []}))
+        if not f.get("is_class"):       # (a plain class on its own is not a pipeline: dds.eval hands back the instance, the model its content)
+            ev.append(("act", {"a": "call", "mod": m, "fn": n, "style": "direct" if f.get("annot") else "eval", "pos": [], "kw": []}))
     ev += [("prog", prog), ("act", call), ("act", call)]
-    return {"seed": seed, "events": ev, "victim": victim, "kind": kind, "call": call, "prog": bad,
-            "store": rng.choice(["local", "local", "memory-then-none"])}
+    store = rng.choice(["local", "local", "memory-then-none"])
+    has_eval = any(e[0] == "act" and e[1].get("style") == "eval" for e in ev)
+    return {"seed": seed, "events": ev, "victim": victim, "kind": kind, "call": call, "prog": bad, "store": store,
+            "configs": draw_configs(rng, has_eval, tier)}
 
 
-def run_one(pl):
+def with_cfg(act, cfg):
+    a = dict(act)
+    if a["a"] == "call" and a.get("style", "eval") == "eval":
+        if cfg["arg"] is not None:
+            a["extra_debug"] = cfg["arg"]
+        if cfg["export"]:
+            a["export"] = True
+        if cfg["n_stages"] is not None:
+            a["n_stages"] = cfg["n_stages"]
+    return a
+
+
+def variant_events(events, cfg):
+    """The history under a configuration: every dds.eval call but the last one carries the arguments (the last one is the plain
+    call: it must find what it finds after default evaluations); the repaired code arrives as the configuration says."""
+    ev, n_prog = [], 0
+    for i, e in enumerate(events):
+        if e[0] == "prog":
+            n_prog += 1
+            ev.append(("act", {"a": "reprog", "prog": copy.deepcopy(e[1])}) if n_prog > 1 and cfg["repair"] == "same-process" else e)
+        else:
+            ev.append(("act", with_cfg(e[1], cfg) if i != len(events) - 1 else e[1]))
+    return ev
+
+
+def is_staged(events):
+    return any(e[0] == "act" and e[1].get("n_stages") is not None for e in events)
+
+
+def run_job(job):
+    pl, cfg = job
     try:
-        return hist.run_history(pl["events"], store_kind="local")
+        if cfg is None:
+            return hist.run_history(pl["events"], store_kind="local")
+        ev = variant_events(pl["events"], cfg)
+        # the dds-free reference and (unless the stages are restricted) the model do not depend on the configuration:
+        # they are taken from the run of the history under the default configuration
+        return hist.run_history(ev, store_kind="local", options=cfg_options(cfg), run_ref=False, run_model=is_staged(ev))
     except Exception as e:  # noqa
         return {"error": str(e)[-1000:]}
 
@@ -48,65 +131,176 @@ def ancestors_and_self(prog, victim):
     return {n for (m, n) in P.reachable(prog, *prog["root"]) if victim in P.reachable(prog, m, n)}
 
 
+def observed(r):
+    io = r["impl"]
+    return {"outcome": io["out"], "executions": io["log"], "blobs stored": [x[1:] for x in io["rec"] if x[0] == "put"],
+            "paths committed": [x[1] for x in io["rec"] if x[0] == "sync"]}
+
+
+def check_history(rep, pl, recs, replay, cfg=None):
+    """The checks of the property on one run of the history (recs: one record per call), under the configuration cfg."""
+    sfx, where = ("", "") if cfg is None else (":config", " [" + cfg_name(cfg) + "]")
+    vm, vn = pl["victim"]
+    fail1, fail2 = recs[0], recs[1]
+    for i, r in enumerate(recs):
+        d = hist.compare(r)
+        if d:
+            rep.violation("model-mismatch:" + d[0][0] + sfx, f"implementation and model disagree at action {i}: {json.dumps(d[:2])[:300]}{where}", dict(replay, action=i))
+        if r["impl"].get("in_eval"):
+            rep.violation("left-in-eval" + sfx, "dds still believes an evaluation is running after the call returned" + where, dict(replay, action=i))
+    reached = vn in fail1["impl"]["log"]
+    if reached:
+        want = f"exc:{pl['kind']}:same-object:{vn}"
+        for r in (fail1, fail2):
+            if r["impl"]["out"] != want:
+                rep.violation("exception-not-propagated" + sfx, f"expected {want}, got {r['impl']['out']}{where}", replay)
+        for r in (fail1, fail2):
+            if any(x[0] == "sync" for x in r["impl"]["rec"]):
+                rep.violation("commit-after-failure" + sfx, "paths were committed although the evaluation failed" + where, replay)
+        # blobs: nothing stored with a value whose tag is the victim or an ancestor
+        waiting = ancestors_and_self(pl["prog"], tuple(pl["victim"]))
+        for r in (fail1, fail2):
+            for x in r["impl"]["rec"]:
+                if x[0] == "put":
+                    tag = bytes.fromhex(x[2].split("(s", 1)[1].split(",")[0].split(")")[0]).decode() if "(s" in x[2] else ""
+                    if tag in waiting:
+                        rep.violation("blob-of-failed-node" + sfx, f"a blob was stored for {tag}, which failed or was waiting for the failing {vn}{where}", replay)
+        if vn not in fail2["impl"]["log"]:
+            rep.violation("failure-cached" + sfx, "the second evaluation did not run the failing function again" + where, replay)
+        # completed kept nodes are reused, not re-executed, by the second failing run
+        stored1 = {x[1] for x in fail1["impl"]["rec"] if x[0] == "put"}
+        stored2 = {x[1] for x in fail2["impl"]["rec"] if x[0] == "put"}
+        if stored1 & stored2:
+            rep.violation("completed-not-reused" + sfx, "a kept node completed by the failed evaluation was executed and stored again" + where, replay)
+    repaired = recs[-2]
+    if repaired["impl"]["out"] != repaired["ref"]["out"]:
+        rep.violation("wrong-after-failure" + sfx, f"after the failure the repaired pipeline returns {repaired['impl']['out'][:80]} instead of "
+                      f"{repaired['ref']['out'][:80]}{where}", replay)
+    return reached
+
+
+def judge(rep, pl, base, variants):
+    """base: records of the history under the default configuration; variants: [(cfg, records)] of the same history."""
+    replay = {"events": pl["events"], "victim": pl["victim"], "kind": pl["kind"]}
+    check_history(rep, pl, base, replay)
+    for cfg, recs in variants:
+        vreplay = dict(replay, events=variant_events(pl["events"], cfg), options=cfg_options(cfg), config=cfg, baseline_events=pl["events"])
+        if isinstance(recs, dict):
+            rep.violation("harness-error:c10", "history could not be run: " + recs["error"][-300:], vreplay, no_input=True)
+            continue
+        calls = [r for r in recs if r["act"]["a"] != "reprog"]
+        staged = any(r["act"].get("n_stages") is not None for r in calls)
+        for r, b in zip(calls, base):
+            r["ref"] = b["ref"]
+            if not staged and "model" in b:
+                r["model"] = b["model"]
+        check_history(rep, pl, calls, vreplay, cfg)
+        # none of the configuration is more than diagnostics: each call does, stores and commits what it does by default
+        # (with restricted stages the path commit is skipped: that case is judged by its own run of the model)
+        for i, (r, b) in enumerate(zip(calls, base)):
+            diff = [] if staged else [k for k, v in observed(r).items() if v != observed(b)[k]]
+            if diff:
+                k = diff[0]
+                rep.violation("config-perturbs:" + k.split()[0], f"action {i}, {k}: {json.dumps(observed(r)[k])[:120]} under [{cfg_name(cfg)}], but "
+                              f"{json.dumps(observed(b)[k])[:120]} under the default configuration", dict(vreplay, action=i))
+                break
+
+
 def run(rep, tier, seed, proof_ok):
     n = 14 if tier == "quick" and proof_ok else 120
     rep.rule = (f"{n} random pipelines x a reachable function chosen to raise x exception classes {KINDS}; history: failing evaluation, the "
                 "same again, another pipeline in the same process, then the repaired pipeline twice; checks: the very exception object "
                 "propagates, no blob is stored under any signature of the failing function or of a function waiting for it, no path is "
                 "committed by the failed evaluation, dds is not left inside an evaluation, the repaired run returns the plain result and "
-                "re-executes no kept node that had completed; all observations also compared with the Coq model; distinct = distinct "
-                "(program, victim, class); non-trivial = the victim is not the root or something completed before the failure")
-    plans = [plan(seed * 1000 + i) for i in range(n)]
+                "re-executes no kept node that had completed; all observations also compared with the Coq model; every history is run "
+                "again under other configurations of dds: dds.set_option('extra_debug', False / True) x the dds.eval arguments "
+                "dds_extra_debug None/False/True, dds_export_graph, dds_stages cut after eval / store_commit x the repaired code in a new "
+                "process / reloaded into the same process (quick: 2 configurations per history, one with the debugging level really "
+                "off; thorough: four more drawn from the option x argument grid); the same checks hold under each, and every call yields, "
+                "executes, stores and commits what it does under the default configuration; distinct = distinct (program, victim, "
+                "class, configuration); non-trivial = the victim is not the root or something completed before the failure")
+    plans = [plan(seed * 1000 + i, tier) for i in range(n)]
+    jobs = [(pl, cfg) for pl in plans for cfg in [None] + pl["configs"]]
     with cf.ThreadPoolExecutor(max_workers=C.NPROC) as ex:
-        results = list(ex.map(run_one, plans))
+        results = list(ex.map(run_job, jobs))
+    by_plan = {}
+    for (pl, cfg), recs in zip(jobs, results):
+        by_plan.setdefault(pl["seed"], []).append((cfg, recs))
     kinds = {}
-    for pl, recs in zip(plans, results):
+    dims = {"histories": 0, "set_option(extra_debug)": {}, "dds_extra_debug": {}, "dds_export_graph": 0, "dds_stages": {}, "repaired_in": {},
+            "debugging_level_really_off": 0, "failing_function_reached": 0}
+    for pl in plans:
+        recs = by_plan[pl["seed"]][0][1]
         if isinstance(recs, dict):
             rep.violation("harness-error:c10", "history could not be run: " + recs["error"][-300:], {"events": pl["events"]}, no_input=True)
             continue
         kinds[pl["kind"]] = kinds.get(pl["kind"], 0) + 1
-        vm, vn = pl["victim"]
-        fail1, fail2 = recs[0], recs[1]
-        rep.case(f"{pl['seed']}", nontrivial=(tuple(pl["victim"]) != tuple(pl["prog"]["root"])) or len(fail1["impl"]["log"]) > 1)
-        replay = {"events": pl["events"], "victim": pl["victim"], "kind": pl["kind"]}
-        for i, r in enumerate(recs):
-            d = hist.compare(r)
-            if d:
-                rep.violation("model-mismatch:" + d[0][0], f"implementation and model disagree at action {i}: {json.dumps(d[:2])[:300]}", dict(replay, action=i))
-            if r["impl"].get("in_eval"):
-                rep.violation("left-in-eval", "dds still believes an evaluation is running after the call returned", dict(replay, action=i))
-        reached = vn in fail1["impl"]["log"]
-        if reached:
-            want = f"exc:{pl['kind']}:same-object:{vn}"
-            for r in (fail1, fail2):
-                if r["impl"]["out"] != want:
-                    rep.violation("exception-not-propagated", f"expected {want}, got {r['impl']['out']}", replay)
-            for r in (fail1, fail2):
-                if any(x[0] == "sync" for x in r["impl"]["rec"]):
-                    rep.violation("commit-after-failure", "paths were committed although the evaluation failed", replay)
-            # blobs: nothing stored with a value whose tag is the victim or an ancestor
-            waiting = ancestors_and_self(pl["prog"], tuple(pl["victim"]))
-            for r in (fail1, fail2):
-                for x in r["impl"]["rec"]:
-                    if x[0] == "put":
-                        tag = bytes.fromhex(x[2].split("(s", 1)[1].split(",")[0].split(")")[0]).decode() if "(s" in x[2] else ""
-                        if tag in waiting:
-                            rep.violation("blob-of-failed-node", f"a blob was stored for {tag}, which failed or was waiting for the failing {vn}", replay)
-            if vn not in fail2["impl"]["log"]:
-                rep.violation("failure-cached", "the second evaluation did not run the failing function again", replay)
-            # completed kept nodes are reused, not re-executed, by the second failing run
-            stored1 = {x[1] for x in fail1["impl"]["rec"] if x[0] == "put"}
-            stored2 = {x[1] for x in fail2["impl"]["rec"] if x[0] == "put"}
-            if stored1 & stored2:
-                rep.violation("completed-not-reused", "a kept node completed by the failed evaluation was executed and stored again", replay)
-        repaired = recs[-2]
-        if repaired["impl"]["out"] != repaired["ref"]["out"]:
-            rep.violation("wrong-after-failure", f"after the failure the repaired pipeline returns {repaired['impl']['out'][:80]} instead of "
-                          f"{repaired['ref']['out'][:80]}", replay)
-        rep.sample({"victim": pl["victim"], "class": pl["kind"], "entry": pl["call"], "first": fail1["impl"]["out"], "log": fail1["impl"]["log"]}, cap=3)
-    rep.extra["input_distribution"] = {"histories": len(plans), "exception_classes": kinds}
+        fail1 = recs[0]
+        nontrivial = (tuple(pl["victim"]) != tuple(pl["prog"]["root"])) or len(fail1["impl"]["log"]) > 1
+        rep.case(f"{pl['seed']}", nontrivial=nontrivial)
+        variants = by_plan[pl["seed"]][1:]
+        for cfg, vrecs in variants:
+            rep.case(f"{pl['seed']}:{cfg_name(cfg)}", nontrivial=nontrivial)
+            dims["histories"] += 1
+            for k, v in (("set_option(extra_debug)", cfg["opt"]), ("dds_extra_debug", cfg["arg"]), ("dds_stages", cfg["n_stages"]), ("repaired_in", cfg["repair"])):
+                dims[k][str(v)] = dims[k].get(str(v), 0) + 1
+            dims["dds_export_graph"] += bool(cfg["export"])
+            dims["debugging_level_really_off"] += debug_off(cfg)
+            dims["failing_function_reached"] += pl["victim"][1] in fail1["impl"]["log"]
+        judge(rep, pl, recs, variants)
+        rep.sample({"victim": pl["victim"], "class": pl["kind"], "entry": pl["call"], "first": fail1["impl"]["out"], "log": fail1["impl"]["log"],
+                    "configurations": [cfg_name(c) for c in pl["configs"]]}, cap=3)
+    rep.extra["input_distribution"] = {"histories": len(plans), "exception_classes": kinds, "configurations": dims}
+
+
+class _Echo:
+    """Stand-in for the report when a replay file is re-run: prints what the checks find."""
+
+    def __init__(self):
+        self.n = 0
+
+    def violation(self, key, what, replay, no_input=False):
+        self.n += 1
+        print(f"  {key}: {what}")
+
+
+def _events(evs):
+    def norm(p):
+        p["root"] = tuple(p["root"])
+        for m in p["modules"].values():
+            for f in m["funcs"]:
+                for st in f["stmts"]:
+                    if "callee" in st:
+                        st["callee"] = tuple(st["callee"])
+        return p
+    out = []
+    for e in evs:
+        if e[0] == "prog":
+            out.append(("prog", norm(e[1])))
+        else:
+            out.append(("act", dict(e[1], prog=norm(e[1]["prog"])) if e[1]["a"] == "reprog" else e[1]))
+    return out
 
 
 def replay(path):
-    import c01
-    return c01.replay(path)
+    r = json.load(open(path))["replay"]
+    if "victim" not in r:
+        import c01
+        return c01.replay(path)
+    cfg = r.get("config")
+    events = _events(r["baseline_events"] if cfg else r["events"])
+    pl = {"seed": "replay", "events": events, "victim": tuple(r["victim"]), "kind": r["kind"], "prog": events[0][1]}
+    jobs = [(pl, None)] + ([(pl, cfg)] if cfg else [])
+    results = [run_job(j) for j in jobs]
+    for (_, c), recs in zip(jobs, results):
+        print("history under", cfg_name(c) if c else "the default configuration")
+        if isinstance(recs, dict):
+            print("  could not be run:", recs["error"][-300:])
+            return 2
+        for i, rec in enumerate(recs):
+            if rec["act"]["a"] == "call":
+                print(" ", i, rec["act"].get("fn"), "impl:", rec["impl"]["out"][:100], "| log:", rec["impl"]["log"])
+    echo = _Echo()
+    judge(echo, pl, results[0], [(cfg, results[1])] if cfg else [])
+    print("REPRODUCED" if echo.n else "not reproduced")
+    return 1 if echo.n else 0
